@@ -18,7 +18,7 @@ fn base(name: &str, clients: usize, connected: Vec<usize>) -> EvCell {
         alphabet: vec![EvOp::Nop],
         rounds: 3,
         tick_choice: true,
-        env: EvEnv { hold_updates: 0, hold_events: true, reorder: true, drop_unreliable: true, hold_client_events: true, hold_mutations: false, hold_acks: false },
+        env: EvEnv { hold_updates: 0, hold_events: true, reorder: true, drop_unreliable: true, hold_client_events: true, hold_mutations: false, hold_acks: false, update_latency: 0 },
         oracles: EvOracles { c05: true, ..Default::default() },
         closure_rounds: 4,
     }
